@@ -54,8 +54,9 @@ def run(prop, tier, replay):
     if tier == "quick":
         # every conjunction of a lower with an upper bound (the planner fuses them into one range search, in
         # eight operator pairings), the rest sampled
-        pairs = [p for p in preds if is_range_pair(p)]
-        rest = [p for p in preds if not is_range_pair(p)]
+        # ... and every atom (comparison with every literal incl. the bounds of the value domain, IN, BETWEEN, IS NULL)
+        pairs = [p for p in preds if is_range_pair(p) or p[0] not in ("and", "or", "not")]
+        rest = [p for p in preds if p not in pairs]
         preds_used = pairs + rnd.sample(rest, min(len(rest), max(60, 130 - len(pairs))))
         rnd.shuffle(preds_used)
     else:
